@@ -353,6 +353,29 @@ func main() {
 	// attribute values and texts that try to pass for an (over-long) escape sequence: what is
 	// displayed still has to fit the width
 	long := strings.Repeat("wide load ", 12)
+	// widths that do not fit 8 or 16 bits, followed by the width they would be mistaken for
+	for _, d := range [][2]string{{"text/html", "<p>" + long + long + "</p><ul><li>" + long + "</li></ul>"}, {"text/markdown", long + long + "\n\n* " + long}, {"text/gemini", long + long + "\n> " + long}, {"text/plain", long + long}} {
+		fresh := map[int]string{}
+		for _, w := range []int{40, 296, 65576, 40 + 1<<32} {
+			if m, err := markup(d[1], d[0]); err == nil {
+				fresh[w], _ = render(m, w)
+			}
+		}
+		for _, seq := range [][]int{{296, 40}, {65576, 40}, {40 + 1<<32, 40}, {40, 65576, 40}, {65576, 296}} {
+			m, err := markup(d[1], d[0])
+			if err != nil {
+				break
+			}
+			for i, w := range seq {
+				out, pan := render(m, w)
+				r.Eval(1)
+				if pan != "" || out != fresh[w] {
+					r.Violation("history:huge-width:"+short(d[0]), map[string]any{"doc": d[1], "mediaType": d[0], "widths": seq[:i+1], "msg": fmt.Sprintf("Render(%d) after widths %v differs from a fresh render", w, seq[:i])})
+					break
+				}
+			}
+		}
+	}
 	for _, d := range [][2]string{
 		{"text/html", `<p>x</p><img src="https://l.example/i" alt="&#27;[` + long + `more at the end">`},
 		{"text/html", `<img src="https://l.example/&#27;[` + long + `more at the end">`},
